@@ -438,6 +438,12 @@ func (r *Report) writeEvidence(oblist []*Oblig, nObl, nDis int, knownHit []strin
 		if c.HasMod && !c.Props["C20"] {
 			assumptions = append(assumptions, "modifies clause of "+k+" is declared but not checked against the body")
 		}
+		if c.NoSafety {
+			assumptions = append(assumptions, "run-time safety (bounds, nil, overflow) of "+k+" is not checked (nosafety)")
+		}
+		if c.NoReturn {
+			assumptions = append(assumptions, "callers of "+k+" rely on it never returning (checked against its body: post#noreturn)")
+		}
 		for _, e := range c.Ensures {
 			if e.Kind == "assumes" {
 				assumptions = append(assumptions, "ASSUMED (not checked against the body) postcondition of "+k+": "+e.Text)
